@@ -5,7 +5,7 @@
    function; the repetition consumes one declaration per round and stops at the end of the text; StringEnd. *)
 From Coq Require Import String Ascii List Bool Arith Lia.
 From Wrap Require Import Base.Str Base.ListX Syntax.Ast Syntax.Print Inst.Model Parse.Peg Parse.PegProofs Parse.Build Parse.Spec
-     Parse.Layout Parse.RoundTrip.
+     Parse.Layout Parse.RoundTrip Parse.RoundTripPair.
 Import ListNotations.
 Open Scope list_scope.
 
@@ -852,6 +852,45 @@ Proof.
   apply (fwd_fails2 p ktypedef _ (21 + ft + z) Wt Bd); discriminate.
 Qed.
 
+(* ---- functions returning a pair ---- *)
+Definition wf_pfn (t1 t2 : ty) (name : string) (args : list (ty * string)) : Prop :=
+  wf_ty t1 /\ wf_ty t2 /\ plain t1 /\ plain t2 /\ is_ident (chars_of name) = true /\ Forall wf_arg args.
+Definition pfn_decl (t1 t2 : ty) (name : string) (args : list (ty * string)) : decl :=
+  DFun {| f_tmpl := None; f_name := name; f_ret := RPair t1 t2; f_args := map mk_arg args |}.
+
+Lemma content_step_pfn : forall t1 t2 name args, wf_pfn t1 t2 name args -> forall p R f, pfn_fuel t1 t2 args + 25 <= f ->
+  exists v p', interp g f OR7 {| pk := p; rest := render (pfn_toks t1 t2 name args) R |} = Match [([], v)] {| pk := p'; rest := R |}
+               /\ forall k, b_decl (S k) v = Ok (pfn_decl t1 t2 name args).
+Proof.
+  intros t1 t2 name args [W1 [W2 [P1 [P2 [Hn Ha]]]]] p R f Hf.
+  assert (X : exists y, f = Sn 7 (18 + y) /\ pfn_fuel t1 t2 args <= y) by (exists (f - 25); cbn [Sn]; lia).
+  destruct X as [y [Ef Hy]]. subst f. cbn [Sn].
+  destruct (pair_function_roundtrip t1 t2 name args W1 W2 P1 P2 Hn Ha p R (Sn 3 (18 + y)) ltac:(cbn [Sn]; lia)) as [v [p' [E B]]]. cbn [Sn] in E.
+  exists v, p'. split; [|exact B].
+  set (st := {| pk := p; rest := render (pfn_toks t1 t2 name args) R |}) in *.
+  set (TAILP := render ([lt_tok] ++ ty_toks t1 ++ [comma_tok] ++ ty_toks t2 ++ [gt_tok] ++ [chars_of name] ++ [lparen] ++ args_toks args ++ [rparen] ++ [semi]) R).
+  assert (Est : st = {| pk := p; rest := sp kpair TAILP |}).
+  { unfold st, pfn_toks, TAILP. rewrite pair_toks_eq. rewrite <- !app_assoc. reflexivity. }
+  assert (Wp : word kpair) by (split; [discriminate | reflexivity]).
+  assert (Bd : boundary TAILP) by (right; eexists; reflexivity).
+  unfold OR7. apply or2_l; [|rewrite Est; apply (namespace_fails p kpair _ Wp Bd (Sn 6 (11 + y))); discriminate].
+  unfold OR6. apply or2_l.
+  2:{ unfold st, pfn_toks. rewrite render_app.
+      change (render ([chars_of name] ++ [lparen] ++ args_toks args ++ [rparen] ++ [semi]) R)
+        with (sp (chars_of name) (sp lparen (render (args_toks args ++ [rparen] ++ [semi]) R))).
+      assert (HP : parses (fuel_of (pair_type t1 t2)) (pair_toks t1 t2) (ty_value (pair_type t1 t2))).
+      { apply (ty_parses 2 (pair_type t1 t2)); [|apply wf_pair_type; assumption].
+        cbn [depth pair_type fold_right]. rewrite (plain_depth t1 P1), (plain_depth t2 P2). cbn. lia. }
+      apply (variable_fails _ (pair_toks t1 t2) _ (chars_of name) "("%char [] _ HP Hn eq_refl eq_refl eq_refl (Sn 5 (10 + y)) p).
+      unfold pfn_fuel in Hy. cbn [Sn]. lia. }
+  unfold OR5. apply or2_l; [|rewrite Est; apply (enum_fails2 p kpair _ (12 + y) Wp Bd); discriminate].
+  unfold OR4. rewrite or2_r; [exact E|].
+  unfold OR3. rewrite or2_r; [rewrite Est; apply (typedef_fails2 p kpair _ (14 + y) Wp Bd); discriminate|].
+  unfold OR2. rewrite or2_r; [rewrite Est; apply (class_fails2 p kpair _ (1 + y) Wp Bd); discriminate|].
+  unfold OR1. rewrite or2_r; [rewrite Est; apply (include_fails2 p kpair _ (12 + y) Wp Bd)|].
+  rewrite Est. apply (fwd_fails2 p kpair _ (9 + y) Wp Bd); discriminate.
+Qed.
+
 (* ---- where a run of declarations stops: at the end of the text, or at the closing brace of a namespace ---- *)
 
 Lemma ty_fails_at_rbrace : forall f p X, interp g (12 + f) TY {| pk := p; rest := sp rbrace X |} = Fail.
@@ -1217,6 +1256,7 @@ Inductive item : Type :=
 | IInc (header : string)
 | IEnum (name : string) (enumerators : list string)
 | ITypedef (t : ty) (name : string)
+| IFnP (t1 t2 : ty) (name : string) (args : list (ty * string))
 | INs (name : string) (body : list item).
 
 Fixpoint itoks (i : item) : list chars :=
@@ -1227,6 +1267,7 @@ Fixpoint itoks (i : item) : list chars :=
   | IInc h => inc_toks h
   | IEnum n l => enum_toks n l
   | ITypedef t n => typedef_toks t n
+  | IFnP a b n l => pfn_toks a b n l
   | INs n b => [knamespace; chars_of n; lbrace] ++ flat_map itoks b ++ [rbrace]
   end.
 Definition items_toks (l : list item) : list chars := flat_map itoks l.
@@ -1238,10 +1279,11 @@ Fixpoint idecl (i : item) : decl :=
   | IInc h => DInclude h
   | IEnum n l => enum_decl n l
   | ITypedef t n => DTypedef (ty_typename t) n
+  | IFnP a b n l => pfn_decl a b n l
   | INs n b => DNamespace n (map idecl b)
   end.
 Fixpoint idepth (i : item) : nat :=
-  match i with IFn _ => 0 | IVar _ _ => 0 | IFwd _ _ => 0 | IInc _ => 0 | IEnum _ _ => 0 | ITypedef _ _ => 0 | INs _ b => S (fold_right (fun x acc => Nat.max (idepth x) acc) 0 b) end.
+  match i with IFn _ => 0 | IVar _ _ => 0 | IFwd _ _ => 0 | IInc _ => 0 | IEnum _ _ => 0 | ITypedef _ _ => 0 | IFnP _ _ _ _ => 0 | INs _ b => S (fold_right (fun x acc => Nat.max (idepth x) acc) 0 b) end.
 Fixpoint wf_item (i : item) : Prop :=
   match i with
   | IFn x => wf_fn x
@@ -1250,6 +1292,7 @@ Fixpoint wf_item (i : item) : Prop :=
   | IInc h => path_ok_c (chars_of h)
   | IEnum n l => wf_enum n l
   | ITypedef t n => wf_typedef t n
+  | IFnP a b n l => wf_pfn a b n l
   | INs n b => is_ident (chars_of n) = true /\ (fix all (l : list item) : Prop := match l with [] => True | x :: r => wf_item x /\ all r end) b
   end.
 Fixpoint need (i : item) : nat :=
@@ -1260,6 +1303,7 @@ Fixpoint need (i : item) : nat :=
   | IInc _ => 40
   | IEnum _ l => 40 + length l
   | ITypedef t _ => 40 + fuel_of t
+  | IFnP a b _ l => pfn_fuel a b l + 25
   | INs _ b => 37 + length b + fold_right (fun x acc => need x + acc) 0 b
   end.
 Definition needs (l : list item) : nat := 31 + length l + fold_right (fun x acc => need x + acc) 0 l.
@@ -1307,7 +1351,7 @@ Proof.
       set (REST := render (items_toks items) R) in *.
       assert (Step : exists v p1, interp g F OR7 {| pk := p; rest := render (itoks i) REST |} = Match [([], v)] {| pk := p1; rest := REST |}
                                   /\ forall bf, S n <= bf -> b_decl bf v = Ok (idecl i)).
-      { destruct i as [x|t nm|vt nm|hd|en el|tt tnm|nm b].
+      { destruct i as [x|t nm|vt nm|hd|en el|tt tnm|pa pb pn pl|nm b].
         - cbn [wf_item itoks idecl need] in *. destruct (content_step x Hwi p REST F ltac:(lia)) as [v [p1 [E B]]].
           exists v, p1. split; [exact E|]. intros bf Hbf. destruct bf as [|bf]; [lia|]. apply B.
         - cbn [wf_item itoks idecl need] in *. destruct (content_step_var t nm Hwi p REST F ltac:(lia)) as [v [p1 [E B]]].
@@ -1319,6 +1363,8 @@ Proof.
         - cbn [wf_item itoks idecl need] in *. destruct (content_step_enum en el Hwi p REST F ltac:(lia)) as [v [p1 [E B]]].
           exists v, p1. split; [exact E|]. intros bf Hbf. destruct bf as [|bf]; [lia|]. apply B.
         - cbn [wf_item itoks idecl need] in *. destruct (content_step_typedef tt tnm Hwi p REST F ltac:(lia)) as [v [p1 [E B]]].
+          exists v, p1. split; [exact E|]. intros bf Hbf. destruct bf as [|bf]; [lia|]. apply B.
+        - cbn [wf_item itoks idecl need] in *. destruct (content_step_pfn pa pb pn pl Hwi p REST F ltac:(lia)) as [v [p1 [E B]]].
           exists v, p1. split; [exact E|]. intros bf Hbf. destruct bf as [|bf]; [lia|]. apply B.
         - cbn [wf_item itoks idecl need idepth] in *. destruct Hwi as [Hnm Hall].
           assert (Hb : forall j, In j b -> idepth j < n /\ wf_item j).
@@ -1481,7 +1527,7 @@ Qed.
 
 Lemma item_facts : forall n i, idepth i < n -> wf_item i -> Forall tok_ok (itoks i) /\ need i + 1 <= 32 * length (itoks i).
 Proof.
-  induction n as [|n IH]; intros i Hd Hw; [lia|]. destruct i as [x|t nm|vt nm|hd|en el|tt tnm|nm b].
+  induction n as [|n IH]; intros i Hd Hw; [lia|]. destruct i as [x|t nm|vt nm|hd|en el|tt tnm|pa pb pn pl|nm b].
   - cbn [wf_item itoks need] in *. destruct (fn_facts x Hw) as [F1 [F2 F3]]. split; [exact F1 | lia].
   - cbn [wf_item itoks need] in *. destruct Hw as [Hw [Hdt [_ Hn]]]. destruct (ty_facts _ _ Hdt Hw) as [T1 T2]. unfold var_toks. split.
     + apply Forall_app. split; [exact T1|]. constructor; [apply ident_tok; exact Hn | tok_lit].
@@ -1505,6 +1551,13 @@ Proof.
   - cbn [wf_item itoks need] in *. destruct Hw as [Hw [Hdt [_ Hn]]]. destruct (ty_facts _ _ Hdt Hw) as [T1 T2]. unfold typedef_toks. split.
     + constructor; [tok_lit|]. apply Forall_app. split; [exact T1|]. constructor; [apply ident_tok; exact Hn | tok_lit].
     + cbn [app length]. rewrite app_length. cbn [length]. lia.
+  - cbn [wf_item itoks need] in *. destruct Hw as [W1 [W2 [P1 [P2 [Hn Ha]]]]].
+    assert (Dp : depth (pair_type pa pb) < 2) by (cbn [depth pair_type fold_right]; rewrite (plain_depth pa P1), (plain_depth pb P2); cbn; lia).
+    destruct (ty_facts 2 (pair_type pa pb) Dp (wf_pair_type pa pb W1 W2)) as [T1 T2]. fold (pair_toks pa pb) in T1, T2.
+    destruct (args_facts pl Ha) as [A1 A2]. unfold pfn_toks, pfn_fuel. split.
+    + apply Forall_app. split; [exact T1|]. apply Forall_app. split; [repeat constructor; apply ident_tok; exact Hn|].
+      apply Forall_app. split; [tok_lit|]. apply Forall_app. split; [exact A1|]. apply Forall_app. split; tok_lit.
+    + rewrite !app_length. cbn [length]. lia.
   - cbn [wf_item itoks need idepth] in *. destruct Hw as [Hnm Hall].
     assert (Hb : forall j, In j b -> Forall tok_ok (itoks j) /\ need j + 1 <= 32 * length (itoks j)).
     { intros j Hj. apply IH; [pose proof (idepth_ge b j Hj); lia | apply (wf_items_all b Hall j Hj)]. }
